@@ -4,6 +4,7 @@ package pipe
 const tsDriver = `
 // ---- verification driver (epilogue)
 const verifCodes :number[] = [@CODES@];
+const verifTagged :boolean[] = [@TAGGED@];
 const verifBadCode = @BADCODE@;
 const verifBadCodes :number[] = (() => {
 	const decl = new Set<number>([@EOFCODE@, -1]);
@@ -50,6 +51,11 @@ function GetToken(input :string, model:{ValType :ValType, pos :number}) :number 
 		return verifBadCodes[(p*31+input.length*7)%verifBadCodes.length];
 	}
 	const k = c - 64;
+	if (!verifTagged[k] && p % 2 == 1) {
+		// a token without value: this lexer allocates nothing for every second such token, so the
+		// token is shifted with a reference to the value object of the previous token
+		return verifCodes[k];
+	}
 	model.ValType = new ValType();
 	model.ValType.s = "!"; model.ValType.t = "!"; model.ValType.n = -9999; model.ValType.m = -9999; model.ValType.st = "!"; model.ValType.nm = -9999;
 	const sv = String.fromCharCode(97 + k % 26) + "@" + p;
